@@ -101,7 +101,7 @@ func (c *stackClass_[V]) MakeFromArray(values []V) StackLike[V] {
 	var list = List[V](c.notation_).MakeFromArray(values)
 	return &stack_[V]{
 		class_:    c,
-		capacity_: c.defaultCapacity_,
+		capacity_: c.capacityFor(list.GetSize()),
 		values_:   list,
 	}
 }
@@ -110,9 +110,22 @@ func (c *stackClass_[V]) MakeFromSequence(values Sequential[V]) StackLike[V] {
 	var list = List[V](c.notation_).MakeFromSequence(values)
 	return &stack_[V]{
 		class_:    c,
-		capacity_: c.defaultCapacity_,
+		capacity_: c.capacityFor(list.GetSize()),
 		values_:   list,
 	}
+}
+
+// Private
+
+// This private class method returns the capacity for a stack constructed with
+// the specified number of initial values.  It is the default capacity unless
+// more room is needed to hold all of the initial values.
+func (c *stackClass_[V]) capacityFor(size int) uint {
+	var capacity = c.defaultCapacity_
+	if uint(size) > capacity {
+		capacity = uint(size)
+	}
+	return capacity
 }
 
 // INSTANCE METHODS
